@@ -172,6 +172,9 @@ def run(ctx):
     uni = list(build.expr_universe("circuit", sig, doms, depth, width))
     if ctx.quick:
         pass  # complete at this depth in the quick tier
+    if not ctx.quick:
+        uni = [r for r in uni if len(r[2]) <= 2] + [r for r in uni if len(r[2]) == 3][::4]
+        ctx.cap_hit("depth-3 circuits enumerated with stride 4 (depth <= 2 complete)")
     items += [("circuit", dict(recipe=r)) for r in uni]
     nmax = 4 if ctx.quick else 5
     for e in ("CX", "CZ", "SWAP", "CRz(0.3)", "CRx(-0.7)", "CU1(0.25)", "Controlled(S)"):
